@@ -1,1 +1,209 @@
 //! Verification facade: `parse` (feature `verif`).
+//!
+//! * `parse_expression_dump` runs the real expression parser on a text and renders the AST as an s-expression;
+//! * `binding_powers` *evaluates* the parser's own precedence decisions for every operator token, so that the
+//!   Lean model of the Pratt parser runs on the table the code actually uses (no text translation).
+use crate::sql::parser::{Parser, Token, ast::*};
+
+fn bin_name(op: BinaryOperator) -> &'static str {
+    match op {
+        BinaryOperator::Plus => "plus",
+        BinaryOperator::Minus => "minus",
+        BinaryOperator::Multiply => "mul",
+        BinaryOperator::Divide => "div",
+        BinaryOperator::Modulo => "mod",
+        BinaryOperator::Eq => "eq",
+        BinaryOperator::Neq => "neq",
+        BinaryOperator::Lt => "lt",
+        BinaryOperator::Gt => "gt",
+        BinaryOperator::Le => "le",
+        BinaryOperator::Ge => "ge",
+        BinaryOperator::And => "and",
+        BinaryOperator::Or => "or",
+        BinaryOperator::Like => "like",
+        BinaryOperator::NotLike => "notlike",
+        BinaryOperator::Concat => "concat",
+        BinaryOperator::In => "in",
+        BinaryOperator::NotIn => "notin",
+        BinaryOperator::Is => "is",
+        BinaryOperator::IsNot => "isnot",
+    }
+}
+
+fn hex(s: &str) -> String {
+    if s.is_empty() {
+        return "-".into();
+    }
+    s.bytes().map(|b| format!("{:02x}", b)).collect()
+}
+
+fn dump(e: &Expr, out: &mut String) {
+    match e {
+        Expr::Number(n) => {
+            if n.fract() == 0.0 && n.abs() < 1e18 {
+                out.push_str(&format!("(num {})", *n as i64))
+            } else {
+                out.push_str(&format!("(float {})", n.to_bits()))
+            }
+        }
+        Expr::String(s) => out.push_str(&format!("(str {})", hex(s))),
+        Expr::Boolean(b) => out.push_str(if *b { "(bool 1)" } else { "(bool 0)" }),
+        Expr::Null => out.push_str("(null)"),
+        Expr::Identifier(s) => out.push_str(&format!("(id {})", hex(s))),
+        Expr::QualifiedIdentifier { table, column } => out.push_str(&format!("(qid {} {})", hex(table), hex(column))),
+        Expr::Star => out.push_str("(star)"),
+        Expr::BinaryOp { left, op, right } => {
+            out.push_str(&format!("({} ", bin_name(*op)));
+            dump(left, out);
+            out.push(' ');
+            dump(right, out);
+            out.push(')');
+        }
+        Expr::UnaryOp { op, expr } => {
+            out.push_str(match op {
+                UnaryOperator::Plus => "(pos ",
+                UnaryOperator::Minus => "(neg ",
+                UnaryOperator::Not => "(not ",
+            });
+            dump(expr, out);
+            out.push(')');
+        }
+        Expr::List(items) => {
+            out.push_str("(list");
+            for i in items {
+                out.push(' ');
+                dump(i, out);
+            }
+            out.push(')');
+        }
+        Expr::Between { expr, negated, low, high } => {
+            out.push_str(if *negated { "(notbetween " } else { "(between " });
+            dump(expr, out);
+            out.push(' ');
+            dump(low, out);
+            out.push(' ');
+            dump(high, out);
+            out.push(')');
+        }
+        Expr::FunctionCall { name, args, distinct } => {
+            out.push_str(&format!("(call {} {}", hex(name), if *distinct { 1 } else { 0 }));
+            for a in args {
+                out.push(' ');
+                dump(a, out);
+            }
+            out.push(')');
+        }
+        Expr::Case { .. } => out.push_str("(case)"),
+        Expr::Subquery(_) => out.push_str("(subquery)"),
+        Expr::Exists(_) => out.push_str("(exists)"),
+    }
+}
+
+/// Parses `text` as one expression with the real Pratt parser. `Ok(s-expression)` if the whole text was consumed,
+/// `Err("trailing")` if tokens were left over, `Err("parse")` on a parser error.
+pub fn parse_expression_dump(text: &str) -> Result<String, &'static str> {
+    let mut p = Parser::new(text);
+    match p.parse_expression() {
+        Err(_) => Err("parse"),
+        Ok(e) => {
+            if p.at_eof_for_verif() {
+                let mut s = String::new();
+                dump(&e, &mut s);
+                Ok(s)
+            } else {
+                Err("trailing")
+            }
+        }
+    }
+}
+
+/// `(l_bp, r_bp)` the parser assigns to `text`'s first token as an infix operator, looking at the token after it
+/// where the parser does (NOT IN / NOT BETWEEN / NOT LIKE).
+pub fn infix_binding_power_of(text: &str) -> Option<(u8, u8)> {
+    Parser::new(text).infix_binding_power_for_verif()
+}
+
+/// The parser's binding powers, obtained by evaluating its own functions and by probing its behaviour:
+/// * every operator token (and a few non-operators) with the result of `infix_binding_power`;
+/// * the *effective* power with which a prefix operator parses its operand = the smallest left power among the
+///   infix operators it absorbs (one more than the largest left power if it absorbs none), found by parsing
+///   `<prefix> a <op> b` for every infix operator and looking at the shape of the tree; likewise for the bounds
+///   of BETWEEN.
+pub fn binding_powers() -> Vec<(String, Option<(u8, u8)>)> {
+    let infix: [(&str, &str); 24] = [
+        ("or", "OR x"),
+        ("and", "AND x"),
+        ("eq", "= x"),
+        ("neq", "<> x"),
+        ("lt", "< x"),
+        ("gt", "> x"),
+        ("le", "<= x"),
+        ("ge", ">= x"),
+        ("like", "LIKE x"),
+        ("in", "IN (x)"),
+        ("between", "BETWEEN x AND y"),
+        ("is", "IS NULL"),
+        ("plus", "+ x"),
+        ("minus", "- x"),
+        ("star", "* x"),
+        ("slash", "/ x"),
+        ("percent", "% x"),
+        ("concat", "|| x"),
+        ("not_in", "NOT IN (x)"),
+        ("not_between", "NOT BETWEEN x AND y"),
+        ("not_like", "NOT LIKE x"),
+        ("not_other", "NOT x"),
+        ("comma", ", x"),
+        ("rparen", ") x"),
+    ];
+    let mut out: Vec<(String, Option<(u8, u8)>)> =
+        infix.iter().map(|(n, t)| (n.to_string(), infix_binding_power_of(t))).collect();
+
+    // probes: binary operators with their names in the dump and their left power
+    let probes: Vec<(&str, &str, u8)> = [
+        ("OR", "or"),
+        ("AND", "and"),
+        ("=", "eq"),
+        ("<", "lt"),
+        ("LIKE", "like"),
+        ("+", "plus"),
+        ("-", "minus"),
+        ("||", "concat"),
+        ("*", "mul"),
+        ("/", "div"),
+        ("%", "mod"),
+    ]
+    .iter()
+    .filter_map(|(sym, name)| infix_binding_power_of(&format!("{} x", sym)).map(|(l, _)| (*sym, *name, l)))
+    .collect();
+    let max_l = probes.iter().map(|p| p.2).max().unwrap_or(0);
+    // does `<prefix> a <op> b` come back with the prefix operator at the root (the operand absorbed `<op> b`)?
+    let effective = |prefix: &str, root: &str| -> u8 {
+        let mut power = max_l + 2;
+        for (sym, _, l) in &probes {
+            if let Ok(d) = parse_expression_dump(&format!("{} a {} b", prefix, sym)) {
+                if d.starts_with(root) {
+                    power = power.min(*l);
+                }
+            }
+        }
+        power
+    };
+    out.push(("prefix_not".into(), Some((effective("NOT", "(not "), 0))));
+    out.push(("prefix_minus".into(), Some((effective("-", "(neg "), 0))));
+    out.push(("prefix_plus".into(), Some((effective("+", "(pos "), 0))));
+    // bounds of BETWEEN: `x BETWEEN a <op> b AND c` parses iff the low bound absorbs `<op> b`
+    let mut bound = max_l + 2;
+    for (sym, _, l) in &probes {
+        if *sym == "AND" {
+            continue;
+        }
+        if let Ok(d) = parse_expression_dump(&format!("x BETWEEN a {} b AND c", sym)) {
+            if d.starts_with("(between ") {
+                bound = bound.min(*l);
+            }
+        }
+    }
+    out.push(("between_bound".into(), Some((bound, 0))));
+    out
+}
